@@ -56,9 +56,75 @@ fn err_cls(e: &Error) -> String {
 }
 fn show_addr(a: &ByronAddress) -> String { format!("{} {}", hex(a.payload.as_ref()), a.crc) }
 
-fn check_crc(entry: &str, a: &ByronAddress, out: &mut Out) {
+/// independent base58 decoder (reference for the oracle: what bytes a string denotes)
+pub fn b58dec_ref(s: &str) -> Option<Vec<u8>> {
+    let zeros = s.bytes().take_while(|c| *c == b'1').count();
+    let mut num: Vec<u8> = vec![]; // big-endian base-256
+    for c in s.bytes().skip(zeros) {
+        let mut carry = B58.iter().position(|x| *x == c)? as u32;
+        for d in num.iter_mut().rev() { carry += (*d as u32) * 58; *d = carry as u8; carry >>= 8; }
+        while carry > 0 { num.insert(0, carry as u8); carry >>= 8; }
+    }
+    let mut out = vec![0u8; zeros]; out.extend(num); Some(out)
+}
+/// independent reading of the address bytes as they are on the wire: `[#6.<any>(bytes), uint, ...]` with any head
+/// widths -> (payload, checksum value as written, up to 64 bits)
+pub fn wire_fields(b: &[u8]) -> Option<(Vec<u8>, u64)> {
+    use crate::streams::cborwrap::read_head;
+    let (m, ai, n, p) = read_head(b, 0)?;
+    if m != 4 || (ai != 31 && n < 2) { return None; }
+    let (m, ai, _, p) = read_head(b, p)?; if m != 6 || ai == 31 { return None; }
+    let (m, ai, len, p) = read_head(b, p)?; if m != 2 || ai == 31 { return None; }
+    let payload = b.get(p..p.checked_add(len as usize)?)?.to_vec();
+    let (m, ai, c, _) = read_head(b, p + len as usize)?; if m != 0 || ai == 31 { return None; }
+    Some((payload, c))
+}
+/// what the entry point was given, as bytes
+fn input_bytes(op: &str, arg: &str) -> Option<Vec<u8>> {
+    match op {
+        "frombase58" => b58dec_ref(arg),
+        "fromstr" => b58dec_ref(arg).filter(|b| wire_fields(b).is_some()).or_else(|| hex::decode(arg).ok()),
+        _ => unhex(arg),
+    }
+}
+
+/// the property on one accepted input: the checksum *as written in the input* (any head width, up to 64 bits) must be
+/// the CRC-32 of the payload as written, and the returned address must carry exactly those two fields
+fn check_crc(entry: &str, op: &str, arg: &str, a: &ByronAddress, out: &mut Out) {
     let want = crc32_ref(a.payload.as_ref());
     if want != a.crc { out.viol(format!("crc-unchecked entry={entry}"), format!("accepted payload {} with crc {} (payload checksum is {})", hex(a.payload.as_ref()), a.crc, want)); }
+    if let Some((payload, wire_crc)) = input_bytes(op, arg).and_then(|b| wire_fields(&b)) {
+        let wire_want = crc32_ref(&payload) as u64;
+        if wire_crc != wire_want {
+            out.viol(format!("crc-unchecked entry={entry} wire-checksum"), format!("input carries checksum {wire_crc:#x} for a payload whose CRC-32 is {wire_want:#x}, yet it was accepted (returned crc {:#x})", a.crc));
+        }
+        if payload[..] != a.payload.0[..] { out.viol(format!("parse-mismatch entry={entry}"), "returned payload differs from the payload bytes of the input"); }
+    }
+}
+
+/// `[#6.24(payload), crc]` written with chosen head widths (0 = immediate, 1, 2, 4, 8 argument bytes; 31 = indefinite array)
+pub fn style_addr(payload: &[u8], crc: u64, w_arr: u8, w_tag: u8, w_bytes: u8, w_crc: u8, extra: &[u8]) -> Vec<u8> {
+    fn head(m: u8, v: u64, w: u8, out: &mut Vec<u8>) {
+        match w {
+            0 => out.push(m << 5 | v as u8),
+            1 => { out.push(m << 5 | 24); out.push(v as u8); }
+            2 => { out.push(m << 5 | 25); out.extend_from_slice(&(v as u16).to_be_bytes()); }
+            4 => { out.push(m << 5 | 26); out.extend_from_slice(&(v as u32).to_be_bytes()); }
+            _ => { out.push(m << 5 | 27); out.extend_from_slice(&v.to_be_bytes()); }
+        }
+    }
+    let mut out = vec![];
+    let n = 2 + if extra.is_empty() { 0 } else { 1 };
+    if w_arr == 31 { out.push(0x9f); } else { head(4, n, w_arr, &mut out); }
+    head(6, 24, w_tag.max(1), &mut out);
+    let min_b = if payload.len() < 24 { 0 } else if payload.len() < 256 { 1 } else { 2 };
+    head(2, payload.len() as u64, w_bytes.max(min_b), &mut out);
+    out.extend_from_slice(payload);
+    let min_c = if crc < 24 { 0 } else if crc < 256 { 1 } else if crc < 65536 { 2 } else if crc < (1 << 32) { 4 } else { 8 };
+    head(0, crc, w_crc.max(min_c), &mut out);
+    out.extend_from_slice(extra);
+    if w_arr == 31 { out.push(0xff); }
+    out
 }
 
 fn parse_payload(op: &[String]) -> Option<AddressPayload> {
@@ -157,6 +223,20 @@ const VECTORS: [&str; 3] = [
 pub fn generate(g: &mut Gen) {
     // standard check value and the pinned mainnet vectors, every run
     g.case(vec!["crc 313233343536373839".to_string(), "crc -".into(), "crc 00".into(), "crc ff".into()]);
+    // an intact address in wide heads, and the same with bit 63 / bit 32 of an 8-byte checksum field set (every entry point)
+    {
+        let payload = unhex("83581c2d1a843e05dad2df8182fae71e312ffd629b2f31784e4328aa4db500a001").unwrap();
+        let crc = crc32_ref(&payload) as u64;
+        let mut ops = vec![];
+        for c in [crc, crc | 1 << 63, crc | 1 << 32, crc ^ 1] {
+            let b = style_addr(&payload, c, 0, 1, 1, 8, &[]);
+            ops.push(format!("frombytes {}", hex(&b))); ops.push(format!("addrbytes {}", hex(&b))); ops.push(format!("addrhex {}", hex(&b)));
+            ops.push(format!("frombase58 {}", b58enc(&b))); ops.push(format!("fromstr {}", b58enc(&b)));
+        }
+        ops.push(format!("frombytes {}", hex(&style_addr(&payload, crc, 31, 8, 8, 4, &[]))));
+        ops.push(format!("frombytes {}", hex(&style_addr(&payload, crc, 2, 2, 4, 8, &[0xf6]))));
+        g.case(ops);
+    }
     g.case(VECTORS.iter().flat_map(|v| vec![format!("frombase58 {v}"), format!("fromstr {v}")]).collect::<Vec<_>>());
     // the chain corpus: every Byron output address of test_data must still parse (they carry valid checksums)
     let corpus = corpus_addresses();
@@ -171,6 +251,35 @@ pub fn generate(g: &mut Gen) {
         // where the payload and the checksum sit inside the address bytes: 82 d8 18 <bytes head> <payload> <crc>
         let (_, _, plen, pstart) = crate::streams::cborwrap::read_head(&good, 3).unwrap();
         let pend = pstart + plen as usize;
+        // the same address in other legal encodings: every head width for the array / tag / byte-string / checksum heads
+        // (non-minimal ones and the 8-byte checksum head included), indefinite and longer arrays; intact, and corrupted in the
+        // payload, in the low and — only expressible with the 8-byte head — in the upper 32 bits of the checksum field
+        {
+            let payload = good[pstart..pend].to_vec();
+            let crc = crc32_ref(&payload) as u64;
+            let ws = [0u8, 1, 2, 4, 8];
+            let rounds = if g.tier == "thorough" { 6 } else { 2 };
+            for _ in 0..rounds {
+                let w_arr = *rng.pick(&[0u8, 0, 1, 2, 4, 8, 31]);
+                let (w_tag, w_bytes) = (*rng.pick(&ws), *rng.pick(&ws));
+                let w_crc = *rng.pick(&[0u8, 4, 4, 8, 8, 8]);
+                let extra: Vec<u8> = if rng.chance(1, 5) { vec![*rng.pick(&[0x00u8, 0xf6, 0x80])] } else { vec![] };
+                let crc_v = match rng.below(6) {
+                    0 | 1 => crc,                                              // intact
+                    2 => crc ^ (1 << rng.below(32)),                           // low half corrupted
+                    3 | 4 => crc | (1u64 << (32 + rng.below(32))),             // upper half corrupted (forces the 8-byte head)
+                    _ => crc.wrapping_add(1 << 32),
+                };
+                let mut pl = payload.clone();
+                if rng.chance(1, 6) && !pl.is_empty() { let k = rng.below(pl.len() as u64 * 8) as usize; pl[k / 8] ^= 1 << (k % 8); }
+                let mut styled = style_addr(&pl, crc_v, w_arr, w_tag, w_bytes, w_crc, &extra);
+                // the tag number is not compared by the decoder: other tag numbers in the one-byte form
+                if w_tag <= 1 && rng.chance(1, 8) { let at = match w_arr { 0 | 31 => 1, 1 => 2, 2 => 3, 4 => 5, _ => 9 }; if styled.get(at) == Some(&0xd8) { styled[at + 1] = *rng.pick(&[0x19u8, 0x1e, 0xff]); } }
+                let h = hex(&styled);
+                match rng.below(5) { 0 => ops.push(format!("frombytes {h}")), 1 => ops.push(format!("addrbytes {h}")), 2 => ops.push(format!("addrhex {h}")),
+                    3 => ops.push(format!("frombase58 {}", b58enc(&styled))), _ => ops.push(format!("fromstr {}", b58enc(&styled))) }
+            }
+        }
         match i % 4 {
             // valid address through every entry point
             0 => {}
@@ -240,7 +349,7 @@ pub fn run_case(case: &Case, out: &mut Out) {
                     None => out.panic(),
                     Some((bytes, b58, a)) => {
                         out.ok(format!("{} {}", hex(&bytes), b58));
-                        check_crc("from_decoded", &a, out);
+                        check_crc("from_decoded", "frombytes", &hex(&bytes), &a, out);
                         if ByronAddress::from_bytes(&bytes).ok().as_ref() != Some(&a) { out.viol("roundtrip cbor", format!("from_bytes(to_vec(a)) != a for {}", hex(&bytes))); }
                         let long = if bytes.len() > 128 { " len>128" } else { "" };
                         if ByronAddress::from_base58(&b58).ok().as_ref() != Some(&a) { out.viol(format!("roundtrip base58{long}"), format!("from_base58(to_base58(a)) != a for {b58} ({} bytes)", bytes.len())); }
@@ -257,7 +366,7 @@ pub fn run_case(case: &Case, out: &mut Out) {
                         else { guard(|| ByronAddress::from_base58(&arg)) };
                 match r {
                     None => out.panic(),
-                    Some(Ok(a)) => { accepted = true; out.ok(show_addr(&a)); check_crc(if op[0] != "frombase58" { "ByronAddress::from_bytes" } else { "ByronAddress::from_base58" }, &a, out); if op[0] == "corpus" { out.cov("corpus-address-accepted"); } }
+                    Some(Ok(a)) => { accepted = true; out.ok(show_addr(&a)); check_crc(if op[0] != "frombase58" { "ByronAddress::from_bytes" } else { "ByronAddress::from_base58" }, &op[0], &arg, &a, out); if op[0] == "corpus" { out.cov("corpus-address-accepted"); } }
                     Some(Err(e)) => {
                         let c = err_cls(&e); if c == "cbor-msg" { rejected_crc = true; }
                         if op[0] == "corpus" { out.viol("corpus-address-rejected", format!("on-chain address {} is rejected ({c})", arg)); }
@@ -270,14 +379,14 @@ pub fn run_case(case: &Case, out: &mut Out) {
                         else { let a = if arg == "-" { String::new() } else { arg.clone() }; guard(|| Address::from_hex(&a)) };
                 match r {
                     None => out.panic(),
-                    Some(Ok(Address::Byron(a))) => { accepted = true; out.ok(format!("byron {}", show_addr(&a))); check_crc(if op[0] == "addrbytes" { "Address::from_bytes" } else { "Address::from_hex" }, &a, out); }
+                    Some(Ok(Address::Byron(a))) => { accepted = true; out.ok(format!("byron {}", show_addr(&a))); check_crc(if op[0] == "addrbytes" { "Address::from_bytes" } else { "Address::from_hex" }, "frombytes", &arg, &a, out); }
                     Some(Ok(_)) => out.ok("other"),
                     Some(Err(e)) => { let c = err_cls(&e); if c == "cbor-msg" { rejected_crc = true; } out.err(c); }
                 }
             }
             "fromstr" => match guard(|| Address::from_str(&arg)) {
                 None => out.panic(),
-                Some(Ok(Address::Byron(a))) => { accepted = true; out.ok(format!("byron {}", show_addr(&a))); check_crc("Address::from_str", &a, out); }
+                Some(Ok(Address::Byron(a))) => { accepted = true; out.ok(format!("byron {}", show_addr(&a))); check_crc("Address::from_str", "fromstr", &arg, &a, out); }
                 Some(_) => out.reply("not-byron".into()),
             },
             _ => out.reply("bad-op".into()),
